@@ -545,6 +545,13 @@ package ast
 //@   invariant@2 forall j int :: 0 <= j && j < $i && (str_contains($keys[j], name) || str_contains(workingMem.expressionSnapshotMap[$keys[j]].GrlText, name)) ==> !workingMem.expressionSnapshotMap[$keys[j]].Evaluated
 //@   invariant@3 forall j int :: 0 <= j && j < $i && (str_contains($keys[j], name) || str_contains(workingMem.expressionAtomSnapshotMap[$keys[j]].GrlText, name)) ==> !workingMem.expressionAtomSnapshotMap[$keys[j]].Evaluated
 
+// a node is FILED once Add* has returned it; what its snapshot depends on must not change afterwards (C07): the ghost
+// $filedNegE/$filedNegA remember the negation flag the node had when it was filed
+//@ ghost var $filedE array[Ref]bool
+//@ ghost var $filedNegE array[Ref]bool
+//@ ghost var $filedA array[Ref]bool
+//@ ghost var $filedNegA array[Ref]bool
+//@ macro func filedStable() bool { return (forall x *Expression :: $filedE[x] ==> x.Negated == $filedNegE[x]) && (forall a *ExpressionAtom :: $filedA[a] ==> a.Negated == $filedNegA[a]) }
 // one node per distinct snapshot text (C07 layer 1, C13): an existing resident with an equal snapshot is returned, else the argument is filed
 //@ extern func (e *ExpressionAtom) GetSnapshot() (s)
 //@   isfunc
@@ -555,6 +562,8 @@ package ast
 //@ extern pure func fn_GetSnapshot_0(n Ref) string
 //@ func (workingMem *WorkingMemory) AddExpression(exp) (r)
 //@   serves C07 C13
+//@   ghost_exit $filedNegE = ite($filedE[r], $filedNegE, store($filedNegE, r, r.Negated))
+//@   ghost_exit $filedE = store($filedE, r, true)
 //@   requires workingMem != nil && workingMem.expressionSnapshotMap != nil && exp != nil
 //@   nopanic
 //@   modifies map[string]*Expression
@@ -563,6 +572,8 @@ package ast
 //@        && (forall k string :: k != fn_GetSnapshot_0(exp) ==> has(workingMem.expressionSnapshotMap, k) == old(has(workingMem.expressionSnapshotMap, k)) && workingMem.expressionSnapshotMap[k] == old(workingMem.expressionSnapshotMap[k]))
 //@ func (workingMem *WorkingMemory) AddExpressionAtom(exp) (r)
 //@   serves C07 C13
+//@   ghost_exit $filedNegA = ite($filedA[r], $filedNegA, store($filedNegA, r, r.Negated))
+//@   ghost_exit $filedA = store($filedA, r, true)
 //@   requires workingMem != nil && workingMem.expressionAtomSnapshotMap != nil
 //@   nopanic
 //@   modifies map[string]*ExpressionAtom
